@@ -778,7 +778,8 @@ DurOp1Clause(ev) ==
 \* ---------------------------------------------------------------------- the step relation
 Clause(ev) ==
   CASE ev.op = "Begin"    -> "ok"
-    [] ev.op = "SetMode"  -> "ok"
+    \* (extended specification: the mode the library reports afterwards means the mode that was set)
+    [] ev.op = "SetMode"  -> IF "rep" \in DOMAIN ev /\ Meaning(ev.rep) # Meaning(ev.sp) THEN "ext:reported-mode-is-not-the-mode-set" ELSE "ok"
     [] ev.op = "CalYear"  -> CalYearClause(mode, ev)
     [] ev.op = "CalRange" -> RangeClause(mode, ev.qs)
     [] ev.op = "Conv"     -> ConvClause(mode, ev)
